@@ -652,6 +652,12 @@ func TestCheck(t *testing.T) {
 			evalTls(t, r, tc)
 			return
 		}
+		if probe.Family == "ws-carrier" {
+			var wc WsCase
+			r.DecodeReplay(&wc)
+			evalWs(t, r, wc)
+			return
+		}
 		var c Case
 		r.DecodeReplay(&c)
 		g := gen{c.Role, c.Input, c.Origin}
@@ -686,6 +692,15 @@ func TestCheck(t *testing.T) {
 		tc := tc
 		r.Guard(idx, 60*time.Second, "hang|server|starttls", tc.String(), tc, func() { evalTls(t, r, tc) })
 	}
+	for i, wc := range wsCases(r.Thorough()) {
+		idx := len(all) + 1000 + i
+		if !r.Mine(idx) {
+			continue
+		}
+		wc := wc
+		r.Guard(idx, 60*time.Second, "hang|server|ws-carrier", wc.String(), wc, func() { evalWs(t, r, wc) })
+	}
+	r.Note("ws_carrier_cases", len(wsCases(r.Thorough())))
 	r.Note("inputs_total", len(all))
 	r.Note("starttls_after_status_cases", len(tlsCases()))
 }
